@@ -290,6 +290,62 @@ def c20(run):
             break
 
 
+def hdr_check(run):
+    """C17 / C18: generated cbindgen-shaped headers through /repo's cglue-bindgen"""
+    import hdrrun
+    tool = hdrrun.build_tool()
+    prop = run.prop
+    n_models = 150 if run.tier == "quick" else 3000
+    known = set(run.known["known"].keys())
+    seeds = [run.seed * 100000 + i for i in range(n_models)]
+    if run.replay:
+        body = json.load(open(run.replay))
+        if body.get("sub") == "argv":
+            seeds = []
+        else:
+            seeds = [body["case"]["seed"]]
+    res = hdrrun.run_many(hdrrun.check_model, [(tool, s, i, known) for i, s in enumerate(seeds)])
+    viol, known_seen, samples = [], {}, []
+    nontrivial = set()
+    evals = 0
+    entries = 0
+    for r in res:
+        evals += 1
+        info = r["info"]
+        entries += info.get("entries", 0)
+        for k, v in info["known_seen"].items():
+            if k.startswith(prop):
+                known_seen[k] = known_seen.get(k, 0) + v
+        nt = info.get("c17_nontrivial") if prop == "C17" else (info.get("two_ctx") or info.get("look_alike"))
+        if nt:
+            nontrivial.add(info["seed"])
+            if len(samples) < 3:
+                samples.append({"sub": "headers", "case": {k: info[k] for k in ("seed", "insts", "config", "groups", "traits")}})
+        for v in r["viol"]:
+            if v["prop"] == prop and not any(x["key"] == v["key"] for x in viol):
+                viol.append({"sub": "headers", "key": v["key"], "what": v["what"], "case": {"seed": info["seed"], "insts": info["insts"], "groups": info["groups"], "config": info["config"]}})
+    rule17 = "API models (1-4 traits with 1-4 methods of 0-4 scalar/struct/slice/pointer/callback arguments, by-ref/by-mut/consuming receivers, scalar/struct/slice/self-container returns, deliberate method-name clashes; 0-2 groups; Box/Mut/Ref containers; Arc and no context; optional default container/context and function prefix) are rendered in cbindgen's C output shape (concrete item shapes as in examples/pregen-headers), post-processed by /repo's cglue-bindgen behind a stub cbindgen, and EXECUTED: a generated C driver builds every object with mock vtables/box/arc functions and calls every wrapper the tool's naming scheme offers for every entry with distinctive arguments; expected: exactly that slot of that object's vtable, the object's container, arguments unchanged and in order, scripted return value back, and for consuming entries / drop helpers instance and context released once with a context clone held across the call. Non-trivial = a vtable with entries of different arity, or a group with a method-name clash, or a consuming entry with a context"
+    rule18 = "the same header space plus user declarations interleaved at generated positions (some named like CGlue patterns: ...Vtbl, ...RetTmp..., ...Container..., Context..., CGlueX): (1) gcc and clang -std=c99 -fsyntax-only accept the output on its own; (2) the tool run 5 times in fresh processes gives byte-identical output; (3) every foreign declaration occurs verbatim and in the original order; (4) argv contract with a recording stub cbindgen (and stub rustup for +nightly): arguments after `--` minus the output option reach cbindgen unchanged and in order, arguments before `--` do not, the processed header lands in the output path or on stdout, -c selects the config. Non-trivial = two context kinds in one header or a look-alike foreign declaration"
+    res_main = {"_label": "headers", "evaluations": evals, "distinct_nontrivial": len(nontrivial), "samples": samples, "violations": viol, "known_seen": known_seen,
+                "classes": {"headers:models": evals, "headers:vtable-entries-executed": entries}, "rule": rule17 if prop == "C17" else rule18,
+                "assumptions": ["cbindgen is not installed: the raw headers are an emulation restricted to concrete item shapes that occur verbatim in examples/pregen-headers/bindings.h"]}
+    run.add_result(res_main)
+    if prop == "C18":
+        n_argv = 120 if run.tier == "quick" else 2000
+        aseeds = [run.seed * 1000 + i for i in range(n_argv)]
+        if run.replay:
+            body = json.load(open(run.replay))
+            aseeds = [body["case"]["seed"]] if body.get("sub") == "argv" else []
+        ares = hdrrun.run_many(hdrrun.argv_case, [(tool, s, i) for i, s in enumerate(aseeds)])
+        aviol = []
+        for s, r in zip(aseeds, ares):
+            for v in r["viol"]:
+                if not any(x["key"] == v["key"] for x in aviol):
+                    aviol.append({"sub": "argv", "key": v["key"], "what": v["what"], "case": {"seed": s, **r["case"]}})
+        run.add_result({"_label": "argv", "evaluations": len(ares), "distinct_nontrivial": len(set(json.dumps(r["case"]) for r in ares if r["case"]["post"])), "samples": [{"sub": "argv", "case": r["case"]} for r in ares[:2]],
+                        "violations": aviol, "known_seen": {}, "classes": {"argv:cases": len(ares)}, "rule": "generated argument vectors for the tool"})
+
+
 def c08(run):
     import gen_c08
     d = gen_c08.make(run.tier)
@@ -309,6 +365,8 @@ def c09(run):
 
 
 PROPS = {
+    "C17": hdr_check,
+    "C18": hdr_check,
     "C20": c20,
     "C03": c03,
     "C04": c04,
